@@ -164,6 +164,7 @@ type Cmd struct {
 	Fill      bool   `json:"fill,omitempty"`
 	RandMax   int    `json:"rand_max,omitempty"`
 	SwapBases bool   `json:"swap_bases,omitempty"` // src base = dst dir and vice versa
+	BaseStyle string `json:"base_style,omitempty"` // spelling of local base directories: "", "slash", "dot", "dslash"
 }
 
 type cmdResult struct {
@@ -214,6 +215,7 @@ func buildCommand(e *Env, c Cmd, now int64, tag string) (cmd.Command, string, er
 	if c.SwapBases {
 		srcBase, dstBase = dstBase, srcBase
 	}
+	srcBase, dstBase = spellBase(srcBase, c.BaseStyle), spellBase(dstBase, c.BaseStyle)
 	if c.SrcRemote {
 		srcBase = simURL
 	}
@@ -351,6 +353,19 @@ func buildCommand(e *Env, c Cmd, now int64, tag string) (cmd.Command, string, er
 		command = pc
 	}
 	return command, tout, nil
+}
+
+// spellBase returns a non-canonical but equivalent spelling of a directory.
+func spellBase(dir, style string) string {
+	switch style {
+	case "slash":
+		return dir + "/"
+	case "dot":
+		return filepath.Dir(dir) + "/./" + filepath.Base(dir)
+	case "dslash":
+		return filepath.Dir(dir) + "//" + filepath.Base(dir)
+	}
+	return dir
 }
 
 type parseError struct{ err error }
